@@ -121,7 +121,7 @@ static int all_filled(const cbor_item_t* it) {
 }
 
 /* the copy must agree with the original in every observable that the tree text does not show: code point counts of text strings */
-static int meta_eq(const cbor_item_t* a, const cbor_item_t* b, int depth) {
+int meta_eq(const cbor_item_t* a, const cbor_item_t* b, int depth) {
   if (!a || !b) return a == b;
   if (depth > 4000 || a->type != b->type) return a->type == b->type;
   switch (a->type) {
@@ -454,9 +454,26 @@ static void op_ser(const char* tree, size_t n) {
   long r0 = h_alloc_requests();
   size_t sz = cbor_serialized_size(it);
   size_t w = cbor_serialize(it, b, n);
+  /* the type-specific entry point of the public API (cbor_serialize_uint ... cbor_serialize_float_ctrl) on the same item and buffer size: same return value,
+     same bytes, again no allocator request */
+  unsigned char* base2 = malloc(n ? n : 1); unsigned char* b2 = n ? base2 : base2 + 1; memset(base2, 0xEE, n ? n : 1);
+  size_t w2 = 0;
+  switch (cbor_typeof(it)) {
+    case CBOR_TYPE_UINT: w2 = cbor_serialize_uint(it, b2, n); break;
+    case CBOR_TYPE_NEGINT: w2 = cbor_serialize_negint(it, b2, n); break;
+    case CBOR_TYPE_BYTESTRING: w2 = cbor_serialize_bytestring(it, b2, n); break;
+    case CBOR_TYPE_STRING: w2 = cbor_serialize_string(it, b2, n); break;
+    case CBOR_TYPE_ARRAY: w2 = cbor_serialize_array(it, b2, n); break;
+    case CBOR_TYPE_MAP: w2 = cbor_serialize_map(it, b2, n); break;
+    case CBOR_TYPE_TAG: w2 = cbor_serialize_tag(it, b2, n); break;
+    case CBOR_TYPE_FLOAT_CTRL: w2 = cbor_serialize_float_ctrl(it, b2, n); break;
+  }
   long r1 = h_alloc_requests();
   struct sb s2 = {0}; print_item(&s2, it, NULL, 0);
-  printf("%zu ", w); print_hex(b, n); printf(" size=%zu noalloc=%d unchanged=%d\n", sz, r1 == r0, strcmp(s.p, s2.p) == 0);
+  printf("%zu ", w); print_hex(b, n); printf(" size=%zu noalloc=%d unchanged=%d", sz, r1 == r0, strcmp(s.p, s2.p) == 0);
+  if (w2 != w || (w && memcmp(b, b2, w) != 0)) { printf(" TYPE-SPECIFIC-SERIALIZER-DIFFERS ret=%zu ", w2); print_hex(b2, n); }
+  printf("\n");
+  free(base2);
   free(base); free(s.p); free(s2.p);
   cbor_decref(&it);
 }
